@@ -743,6 +743,7 @@ struct Sizes {
     lifted: i128,
     /// (r, z) pairs: |r|,|z| <= rz
     rz: i128,
+    rz_wide: i128,
     lvl256: u8,
     lvl_wad: u8,
     wad_small: i128,
@@ -750,8 +751,8 @@ struct Sizes {
 
 fn sizes(tier: Tier) -> Sizes {
     tier.pick(
-        Sizes { lvl_checked: 1, lvl_panicking: 0, small: 12, lifted: 8, rz: 300, lvl256: 0, lvl_wad: 1, wad_small: 10 },
-        Sizes { lvl_checked: 3, lvl_panicking: 1, small: 40, lifted: 24, rz: 300, lvl256: 2, lvl_wad: 3, wad_small: 30 },
+        Sizes { lvl_checked: 1, lvl_panicking: 0, small: 12, lifted: 8, rz: 300, rz_wide: 100, lvl256: 0, lvl_wad: 1, wad_small: 10 },
+        Sizes { lvl_checked: 3, lvl_panicking: 1, small: 40, lifted: 24, rz: 300, rz_wide: 300, lvl256: 2, lvl_wad: 3, wad_small: 30 },
     )
 }
 
@@ -824,15 +825,17 @@ fn enumerate(tier: Tier) -> Tally {
         run_i128(&lifted_pairs, |_, _, _, out| out.extend(rl.iter().map(|&c| (c << 120, true))))
     }));
 
-    // F5: all (r, z) with |r|,|z| <= rz: (r, 1, z) natively and (r*2^62, +-2^66, z*2^118) through
-    // the widened path (quotient r*2^10 / z)
+    // F5: all (r, z) with |r|,|z| <= rz: (r, 1, z) natively, and all |r|,|z| <= rz_wide as
+    // (r*2^62, +-2^66, z*2^118) through the widened path (quotient +-r*2^10 / z)
     let rr = range(sz.rz);
-    let rz_pairs: Vec<(i128, i128)> = rr.iter().flat_map(|&r| [(r, 1i128), (r << 62, 1i128 << 66), (r << 62, -(1i128 << 66))]).collect();
-    total = total.merge(timed(&format!("i128 all (r, z) with |r|,|z| <= {} (native and widened)", sz.rz), || {
-        run_i128(&rz_pairs, |_, y, _, out| {
-            let wide = y != 1;
-            out.extend(rr.iter().map(|&z| (if wide { z << 118 } else { z }, true)));
-        })
+    let rz_pairs: Vec<(i128, i128)> = rr.iter().map(|&r| (r, 1i128)).collect();
+    total = total.merge(timed(&format!("i128 all (r, 1, z) with |r|,|z| <= {}", sz.rz), || {
+        run_i128(&rz_pairs, |_, _, _, out| out.extend(rr.iter().map(|&z| (z, true))))
+    }));
+    let rw = range(sz.rz_wide);
+    let rzw_pairs: Vec<(i128, i128)> = rw.iter().flat_map(|&r| [(r << 62, 1i128 << 66), (r << 62, -(1i128 << 66))]).collect();
+    total = total.merge(timed(&format!("i128 widened (r*2^62, +-2^66, z*2^118), |r|,|z| <= {}", sz.rz_wide), || {
+        run_i128(&rzw_pairs, |_, _, _, out| out.extend(rw.iter().map(|&z| (z << 118, true))))
     }));
 
     // I256: lattice lifted to 256 bits, products that fit
@@ -1000,9 +1003,7 @@ fn main() {
             if t.findings.is_empty() {
                 println!("replay finished: no oracle violated on this case");
             } else {
-                for f in t.findings.values() {
-                    println!("  VIOLATED oracle={} kind={} : {}", f.oracle, f.kind, f.detail);
-                }
+                println!("replay finished: {} oracle violation(s) reproduced on this case (marked VIOLATED above)", t.findings.len());
             }
             return;
         }
